@@ -258,7 +258,10 @@ CHECKS = {
               "quantized folded bias; replacing a folded layer by a plain quantized layer holding get_folded_weights (unfolding) computes the "
               "same value. Correspondence: the unbound call and get_folded_weights of QConv2DBatchnorm and QDepthwiseConv2DBatchnorm on a "
               "stand-in self at training=False over folding mode, use_bias, center/scale, strides, padding, dilation, statistics and "
-              "quantizers against conv -> batch norm computed with TensorFlow ops (2e-4 relative)."),
+              "quantizers against conv -> batch norm computed with TensorFlow ops (2e-4 relative). In addition the REAL layer classes are built "
+              "through a Keras-2 style batch-norm stand-in installed in the layers namespace of the two qkeras modules (bookkeeping only): layer(x, training=False), "
+              "get_folded_weights, and the real bn_folding_utils.unfold_model on functional models of one or two folded layers (classes, folded weights, "
+              "quantizers and predictions of the unfolded model). One genuine defect repaired (center=False, fix: f652379)."),
         design_ref="DESIGN.md section 5 C15, section 10",
         note=(TB_COMMON + "Convolution homogeneity and rsqrt are Section hypotheses/variables. The folded classes and convert/unfold utilities do "
               "not run under the pinned Keras 3 (two known findings): the anchored method bodies are executed on a duck-typed self."),
